@@ -412,6 +412,7 @@ func Classify(tr *Trace) *Verdict {
 	authIdx := 0
 	confirmedEnc, confirmedComp := "none", "none"
 	negotiated := false
+	pendingTLSBytes := 0
 	for _, i := range order {
 		s := steps[i]
 		syms := strings.Fields(s.sym)
@@ -465,6 +466,23 @@ func Classify(tr *Trace) *Verdict {
 			} else {
 				label = "established:other"
 				expectClose = true
+			}
+		case stage == "S1T":
+			// the server's TLS layer needs a whole record header (5 bytes) before it can tell that this is no handshake
+			if b, _ := BuildSymbol(sym, tr.SessionID); len(b) > 0 {
+				pendingTLSBytes += len(b)
+			}
+			if pendingTLSBytes < 5 {
+				label = "outside:cleartext-after-tls-confirmation(short)"
+				if v.OutsideAt < 0 {
+					v.OutsideAt = i
+				}
+				break
+			}
+			label = "outside:cleartext-after-tls-confirmation"
+			expectClose = true
+			if v.OutsideAt < 0 {
+				v.OutsideAt = i
 			}
 		case si.kind == "data":
 			label = "outside:data@" + stage
@@ -537,12 +555,18 @@ func Classify(tr *Trace) *Verdict {
 					break
 				}
 				confirmedComp, confirmedEnc = si.comp, si.enc
-				if si.enc == "tls" && (!cfg.TLSCapable || cfg.ClientSkipsTLS) {
+				if si.enc == "tls" && !cfg.TLSCapable {
 					label = "outside:tls-not-possible"
 					expectClose = true
 					if v.OutsideAt < 0 {
 						v.OutsideAt = i
 					}
+					break
+				}
+				if si.enc == "tls" && cfg.ClientSkipsTLS {
+					// the server now waits for the TLS handshake; this client will go on in cleartext instead
+					label = "conforming:negotiate(tls-pending)"
+					stage = "S1T"
 					break
 				}
 				if si.enc == "tls" && !s.tlsUp {
